@@ -248,7 +248,11 @@ def extract_branch_results_with_internals(net, branch_results, table_name,
             _, sections, connected_sum = _sum_by_group(use_numba, idx_pit, np.ones_like(idx_pit),
                                 comp_connected.astype(np.int32))
             connected_ind = connected_sum > 0.99
-            indices_last_section = (np.cumsum(sections) - 1).astype(int)[connected_ind]
+            # sections and connected_sum are sorted by table index (see _sum_by_group), whereas the
+            # pit is ordered like the table rows --> take the last section of each row from the
+            # internal lookup and bring it into the sorted order
+            last_section_rows = f + net["_lookups"]["internal_branches"][table_name][:, 1]
+            indices_last_section = last_section_rows[placement_table].astype(int)[connected_ind]
             # hint: idx_pit[placement_table] should result in the indices as ordered in the table
             pt = placement_table[connected_ind]
 
